@@ -258,6 +258,8 @@ type runner struct {
 	dirty           bool // some bracket ended in rollback / failed commit since the manager was opened
 	addrKey         [4]map[string]string
 	unlockedBefore  bool
+	nextUnlockedTx  bool // an open bracket contains a NextAddresses call made while unlocked
+	f13             bool // … and the manager was locked when that bracket committed (finding F13)
 }
 
 type engine struct{}
@@ -425,6 +427,9 @@ func (r *runner) wipedOracle() string {
 			key = "lock." + n + "-not-wiped"
 		case strings.Contains(n, "acctKeyPriv"):
 			key = "lock.acctKeyPriv-not-wiped"
+		case r.f13 && (strings.HasSuffix(n, ".privKeyCT")):
+			// address objects built while unlocked, inserted by the OnCommit closure after the manager was locked
+			key = "OnCommit.cleartext-key-cached-after-lock"
 		case strings.Contains(n, "lastExternalAddr") || strings.Contains(n, "lastInternalAddr"):
 			key = "lock.last-address-privkey-not-wiped"
 		case strings.Contains(n, "privKeyCache["):
@@ -574,6 +579,7 @@ func (r *runner) reopen(kv map[string]string) (string, string) {
 		return "err " + errKind(err), viol
 	}
 	r.mgr = m
+	r.f13 = false
 	r.dirty = false
 	r.privUncertain = false
 	r.unlockedBefore = false
@@ -607,6 +613,7 @@ func (r *runner) exec(cmd string, kv map[string]string) (reply, viol string) {
 		r.tx = tx
 		r.snapPriv = r.curPriv
 		r.chpassInTx = false
+		r.nextUnlockedTx = false
 		return "ok", ""
 	case "commit", "rollback", "commitfail":
 		if r.tx == nil {
@@ -618,6 +625,9 @@ func (r *runner) exec(cmd string, kv map[string]string) (reply, viol string) {
 		case "commit":
 			if err := tx.Commit(); err != nil {
 				return "err db", ""
+			}
+			if r.nextUnlockedTx && m != nil && m.IsLocked() {
+				r.f13 = true
 			}
 			r.endBracket(true)
 		case "rollback":
@@ -715,6 +725,9 @@ func (r *runner) exec(cmd string, kv map[string]string) (reply, viol string) {
 		if err != nil {
 			return e(err), ""
 		}
+		if r.tx != nil && !wasLocked {
+			r.nextUnlockedTx = true
+		}
 		return "keys " + strings.Join(keys, ","), ""
 	case "extend":
 		s, err := r.scoped(sc)
@@ -768,6 +781,9 @@ func (r *runner) exec(cmd string, kv map[string]string) (reply, viol string) {
 			return "err scopenotfound", ""
 		}
 		kind, sid, secret := atoi(kv["kind"]), atoi(kv["sid"]), kv["secret"] == "1"
+		if kind < 0 || kind > 2 {
+			return "bad-op", ""
+		}
 		if kind == 0 {
 			secret = true
 		}
@@ -788,7 +804,7 @@ func (r *runner) exec(cmd string, kv map[string]string) (reply, viol string) {
 			return err
 		})
 		if err == nil && scriptAddr != nil {
-			r.flags["secret:"+scriptAddr.String()] = map[bool]string{true: "1", false: "0"}[secret]
+			r.flags[fmt.Sprintf("secret:%d:%s", sc, scriptAddr.String())] = map[bool]string{true: "1", false: "0"}[secret]
 		}
 		if secret {
 			viol = r.denied(wasLocked, wasWO, errKind(err), "ImportScript(secret)", "ImportScript.succeeds-while-locked")
@@ -844,7 +860,7 @@ func (r *runner) exec(cmd string, kv map[string]string) (reply, viol string) {
 		secret := true
 		if k := kv["key"]; !strings.HasPrefix(k, "s:0:") {
 			// witness / taproot scripts may be public; only secret ones are private material
-			secret = r.isSecretScript(sa)
+			secret = r.isSecretScript(sc, sa)
 		}
 		if secret {
 			viol = r.denied(wasLocked, wasWO, errKind(err), "Script", "Script.succeeds-while-locked")
@@ -870,6 +886,9 @@ func (r *runner) exec(cmd string, kv map[string]string) (reply, viol string) {
 		}
 		return r.privKeyProbe(ma.(waddrmgr.ManagedPubKeyAddress), wasLocked, wasWO, "PrivKey(last address)")
 	case "crypt":
+		if k := atoi(kv["kt"]); k < 0 || k > 2 {
+			return "bad-op", ""
+		}
 		kt := waddrmgr.CryptoKeyType(atoi(kv["kt"]))
 		ct, err := m.Encrypt(kt, []byte("some secret bytes"))
 		if err == nil {
@@ -941,9 +960,9 @@ func unhash(h chainhash.Hash) int {
 	return int(h[0]) | int(h[1])<<8 | int(h[2])<<16
 }
 
-func (r *runner) isSecretScript(sa waddrmgr.ManagedScriptAddress) bool {
+func (r *runner) isSecretScript(sc int, sa waddrmgr.ManagedScriptAddress) bool {
 	// the flag is unexported; the harness knows it from the key's import op (recorded in flags by learnSecret)
-	if v, ok := r.flags["secret:"+sa.Address().String()]; ok {
+	if v, ok := r.flags[fmt.Sprintf("secret:%d:%s", sc, sa.Address().String())]; ok {
 		return v == "1"
 	}
 	return true
@@ -1022,6 +1041,7 @@ func (r *runner) unlock(p int) (reply, viol string) {
 		}
 	}
 	if kind == "ok" {
+		r.f13 = false
 		return "ok", viol
 	}
 	return "err " + kind, viol
@@ -1160,6 +1180,9 @@ func universe(kv map[string]string) []qd {
 		var o [][2]string
 		for _, t := range core.CSV(s) {
 			i := strings.IndexByte(t, '/')
+			if i < 0 {
+				panic("malformed cmpq")
+			}
 			o = append(o, [2]string{t[:i], t[i+1:]})
 		}
 		return o
@@ -1194,6 +1217,18 @@ func (r *runner) cmpq(kv map[string]string) (string, string) {
 	}
 	var diffs, viols []string
 	seen := map[string]bool{}
+	malformed := false
+	func() {
+		defer func() {
+			if recover() != nil {
+				malformed = true
+			}
+		}()
+		universe(kv)
+	}()
+	if malformed {
+		return "bad-op", ""
+	}
 	err := walletdb.View(r.db, func(tx walletdb.ReadTx) error {
 		ns := tx.ReadBucket(nsKey)
 		m2, err := waddrmgr.Open(ns, pass(r.curPub), params)
